@@ -125,6 +125,23 @@ claim("C04",
       TRUST + "; parser boundary stubbed; one open finding (same unresolved column name merged across statements) reported as KNOWN-FINDING",
       "DESIGN.md section 4 (C04)")
 
+claim("C18",
+      "On every lifted result of the corpus statements, the C04 chain scripts and 4 path-owning dialect statements, at both export levels and "
+      "with names FREE: exported node ids pairwise distinct AS FORMULAS (two distinct nodes printing the same name is searched over all "
+      "namings), every edge endpoint and parent reference is an exported id, exported nodes/edges correspond one to one to the graph's, the "
+      "text summary lists each source/target/intermediate once in sorted order. The same checker function runs on the unmodified library's "
+      "concrete output for every replayed witness.",
+      TRUST + "; graph read through runner._sql_holder; one open finding (duplicate ids for distinct nodes printing the same name) reported as KNOWN-FINDING",
+      "DESIGN.md section 4 (C18)")
+claim("C06",
+      "On every lifted result of the corpus statements, the C04 chain scripts and 6 dialect-specific statements (paths, LATERAL VIEW, SELECT "
+      "INTO) with names FREE: every reported path is a chain of direct lineage edges with >=1 hop from a column nothing feeds to a column of a "
+      "written table; the last column's owner is target/intermediate; every resolved source column's table is source/intermediate and "
+      "connected to the target's table in the table graph; every node retrievable by eq/hash; resolved columns have one owner. Same checker "
+      "runs concretely on the unmodified library for every replayed witness.",
+      TRUST + "; self-insert namings assumed away; two open findings (one-node paths of CREATE TABLE, LATERAL VIEW alias) reported as KNOWN-FINDING",
+      "DESIGN.md section 4 (C06)")
+
 ALL = ["C%02d" % i for i in range(1, 19)]
 
 
